@@ -83,3 +83,57 @@ Theorem C19_tables_ok :
      end) bytes256 = true.
 Proof. exact (conj markers_match_tbl (conj markers_cover_tbl (conj w1252_entries_tbl w1252_complete_tbl))). Qed.
 Print Assumptions C19_tables_ok.
+
+(* ======================================================================================================
+   The library's Windows-1252 tables against the windows-1252 codec itself (Model/Codecs.v; decode table
+   generated from the running interpreter into Gen/T_Codecs.v).
+   ====================================================================================================== *)
+From BS Require Import Gen.T_Codecs Model.Codecs Proofs.CodecsProofs.
+
+(* the oracle tables used by the sweep and by the readers are the codec's tables *)
+Theorem C19_carrier_tables_are_the_codecs : cp1252_table = cd_cp1252_table /\ latin1_table = cd_latin1_table.
+Proof. exact stdlib_tables_are_the_codecs. Qed.
+Print Assumptions C19_carrier_tables_are_the_codecs.
+
+(* MS_CHARS has exactly the keys 0x80..0x9F *)
+Theorem C19_ms_chars_keys : map fst ms_chars = map N.of_nat (seq 128 32).
+Proof. exact ms_chars_keys. Qed.
+Print Assumptions C19_ms_chars_keys.
+
+(* ... and for every one of them: a (name, hex) pair exactly where windows-1252 defines the byte, the hex digits
+   being that character's code point and &name; reading back as that character; a plain ASCII substitute exactly
+   for the five undefined bytes. No discrepancy (after the repair of 0x9F). *)
+Theorem C19_ms_chars_match_cp1252 : forall b, 128 <= b <= 159 ->
+  match assocN b ms_chars, sb_dec_byte cd_cp1252_table b with
+  | Some (MsPair name hex), Some c =>
+      (num_of 16 hex =? c) && forallb is_hexd hex && negb (is_nil hex) &&
+      str_eqb (read_text (38 :: name ++ [59])) [c]
+  | Some (MsPlain s), None => forallb (fun x => x <? 128) s
+  | _, _ => false
+  end = true.
+Proof. exact ms_chars_match_cp1252. Qed.
+Print Assumptions C19_ms_chars_match_cp1252.
+
+(* WINDOWS_1252_TO_UTF8 has one entry for each byte >= 0x80 that windows-1252 defines (123 of them) ... *)
+Theorem C19_w1252_keys :
+  map fst windows_1252_to_utf8 =
+  filter (fun b => match sb_dec_byte cd_cp1252_table b with Some _ => true | None => false end)
+         (map N.of_nat (seq 128 128)).
+Proof. exact w1252_keys. Qed.
+Print Assumptions C19_w1252_keys.
+
+(* ... each the UTF-8 encoding of the byte's character, with ONE exception found by computation: 0xE1 -> A1
+   (should be C3 A1). detwingle never consults it (E1 is a UTF-8 lead byte; "convertible" above excludes it). *)
+Theorem C19_w1252_matches_cp1252_except_e1 :
+  w1252_exceptions = [225] /\
+  forall b u, assocN b windows_1252_to_utf8 = Some u -> b <> 225 ->
+              exists c, sb_dec_byte cd_cp1252_table b = Some c /\ u = utf8_enc c.
+Proof. exact (conj w1252_exceptions_are w1252_matches_cp1252). Qed.
+Print Assumptions C19_w1252_matches_cp1252_except_e1.
+
+(* with smart_quotes_to = None the text of a carrier-encoded document is the codec's decoding (iso-8859-1: of every
+   byte string) *)
+Theorem C19_latin1_carrier_total : forall bs, is_bytes bs = true ->
+  codec_decode Latin1 Dammit.Strict (convert_smart_quotes SqNone [105; 115; 111; 45; 56; 56; 53; 57; 45; 49] bs) = Some bs.
+Proof. intros bs H. rewrite no_mode_no_conversion. exact (proj1 (latin1_total bs H)). Qed.
+Print Assumptions C19_latin1_carrier_total.
